@@ -611,6 +611,7 @@ func constStringOf(p *Prog, pkg, name string) string {
 }
 
 var c18Canaries = []Canary{
+	{Name: "r7-refspec-keeps-qualified-name", ExpectKey: "C18.R3#refspec", Edits: []Edit{{File: "git/git.go", Find: "\t\treturn \"\"\n\t}\n\n\tprefix, ok := r.Type.Prefix()\n\tif ok {\n\t\treturn fmt.Sprintf(\"%s/%s\", prefix, r.Name)\n", Repl: "\t\treturn \"\"\n\t}\n\n\t// Some callers hand us a name that is fully qualified already; do not\n\t// qualify it a second time (\"refs/heads/refs/heads/main\").\n\tif strings.HasPrefix(r.Name, \"refs/\") {\n\t\treturn r.Name\n\t}\n\n\tprefix, ok := r.Type.Prefix()\n\tif ok {\n\t\treturn fmt.Sprintf(\"%s/%s\", prefix, r.Name)\n"}}},
 	{Name: "r6-extra-header-replaces", ExpectKey: "C18.R4#extra-headers:appended", Edits: []Edit{{File: "lfshttp/client.go", Find: "\t\tcopy[k] = vs\n\t}\n\n\tfor k, vs := range extraHeaders {\n\t\tfor _, v := range vs {\n\t\t\tcopy[k] = append(copy[k], v)\n\t\t}\n\t}\n\treturn copy\n}\n", Repl: "\t\tcopy[k] = vs\n\t}\n\n\t// This runs once per attempt (authentication retries and redirects come\n\t// back through here with the same request), so assign the configured\n\t// values instead of appending them again on every pass.\n\tfor k, vs := range extraHeaders {\n\t\tcopy[k] = vs\n\t}\n\treturn copy\n}\n"}}},
 	{Name: "r5-offered-authorization-dropped", ExpectKey: "C18.R4#authorization-dropped-only-if-own", Edits: []Edit{{File: "lfsapi/auth.go", Find: "\t\t\tif credWrapper.Creds != nil {\n\t\t\t\treq.Header.Del(\"Authorization\")", Repl: "\t\t\treq.Header.Del(\"Authorization\")\n\t\t\tif credWrapper.Creds != nil {"}}},
 	{Name: "r4-redirect-drops-body", ExpectKey: "C18.R7#redirect:carries-Body", Edits: []Edit{{File: "lfshttp/client.go", Find: "\tnewReq.Body = req.Body\n", Repl: "\tif req.Method != \"POST\" {\n\t\tnewReq.Body = req.Body\n\t}\n"}}},
